@@ -128,4 +128,46 @@ example : (0 : Int) < 2 ∧ (0 : Int) < 5 := by decide
 example : cellCoord 2 false 0 = 0 ∧ cellCoord 2 true 0 = -2 ∧ cellCoord 2 true (-2) = -4 ∧ cellCoord 2 false 2 = 2
     ∧ cellCoord 5 true (-5) = -10 ∧ cellCoord 5 true (-4) = -5 ∧ cellCoord 5 false 100000 = 100000 := by decide
 
+/-! ### The callers' distance filter (round 4)
+
+The property's goal clause is about the *callers*: "results after distance filtering equal a
+brute-force all-pairs search". That holds exactly when the distance the caller filters with does
+not exceed the cell size of the list it queries. -/
+
+/-- squared Euclidean distance of two points -/
+def dist2 (p q : ℚ × ℚ × ℚ) : ℚ := (p.1 - q.1) ^ 2 + (p.2.1 - q.2.1) ^ 2 + (p.2.2 - q.2.2) ^ 2
+
+/-- **a caller whose cutoff does not exceed the cell size loses nothing**: after every
+protocol-obeying history, every registered atom closer (Euclidean distance) than a cutoff `r ≤ s` to
+the query atom is in the query's result; with `near_exact` / `near_nodup`, filtering the result at
+`r` is the brute-force answer. (`optimize_hydrogens` filters at 4.3 Å on a 5 Å list, the debumper
+at ≤ 2 Å on a 2 Å list.) -/
+theorem near_within_cutoff (s : Int) (hs : 0 < s) (ops : List Op) (a b : Id) (pa pb : ℚ × ℚ × ℚ)
+    (hab : a ≠ b) (r : ℚ) (hr0 : 0 ≤ r) (hr : r ≤ s) :
+    let st := ops.foldl applyOp (init s)
+    (cellOf st a).isSome → (cellOf st b).isSome →
+    posOf st a = tposOf pa → posOf st b = tposOf pb →
+    dist2 pa pb < r ^ 2 → b ∈ nearCells st a := by
+  intro st ha hb hpa hpb hd
+  have key : ∀ u v w : ℚ, u ^ 2 + v ^ 2 + w ^ 2 < r ^ 2 → |u| < (s : ℚ) := by
+    intro u v w h
+    have h1 : u ^ 2 < r ^ 2 := by nlinarith [sq_nonneg v, sq_nonneg w]
+    have h2 : |u| < r := abs_lt_of_sq_lt_sq h1 hr0
+    exact lt_of_lt_of_le h2 hr
+  unfold dist2 at hd
+  set u := pa.1 - pb.1
+  set v := pa.2.1 - pb.2.1
+  set w := pa.2.2 - pb.2.2
+  exact near_in_range s hs ops a b pa pb hab ha hb hpa hpb (key u v w hd) (key v u w (by linarith)) (key w u v (by linarith))
+
+/-- **… and a cutoff beyond the cell size does lose atoms** (the round-4 seeded defect: a 2 Å list
+queried by a caller that filters at 4.3 Å): two registered atoms 4 Å apart are not neighbours in a
+2 Å list. -/
+theorem cutoff_beyond_cell_size_refuted :
+    let p (x : Int) : TPos := { nx := decide (x < 0), tx := x, ny := false, ty := 0, nz := false, tz := 0 }
+    let st := [Op.place 1 (p 0), Op.place 2 (p 4)].foldl applyOp (init 2)
+    (cellOf st 1).isSome ∧ (cellOf st 2).isSome ∧ 2 ∉ nearCells st 1 ∧
+      dist2 (0, 0, 0) (4, 0, 0) < (43 / 10 : ℚ) ^ 2 := by
+  refine ⟨by decide, by decide, by decide, by norm_num [dist2]⟩
+
 end P2P.Props.C14
